@@ -40,6 +40,23 @@ CHECKS["C15"] = dict(
     design_ref="4/C15",
 )
 
+CHECKS["C16"] = dict(
+    engine="mirsym+kani",
+    technique="SMT (z3/cvc5; arrays, bit-vectors, f64) over a symbolic execution of the real MIR of EvictionManager::{record_failure,record_success,update_trust_score,record_eviction,remove_node,get_eviction_reason,should_evict,should_evict_for_trust} from an arbitrary manager state and of TrustAwarePeerSelector::{select_peers,select_storage_peers} with an uninterpreted trust provider; Kani/CBMC for the liveness counter",
+    category="proof",
+    text="Bounded proof by SMT: eviction candidacy and reason precedence exactly as the policy states after one event from an ARBITRARY manager state (induction over event histories), other nodes unaffected; selector results are distinct candidates, at most count, never below the trust floor when untrusted are excluded (any f64 trust incl. NaN), and never rank a farther peer ahead of a closer one of equal trust (all ids sharing their 16 high-order bytes; representative grids otherwise). A genuine ranking defect found this way was fixed in /repo (see known_findings.json).",
+    note="Trusts the HashMap/iterator/sort summaries, the solvers and single-threaded execution; get_eviction_candidates (hash-map iteration) and the async DhtCoreEngine call sites are outside; ranking for distinct high-order bytes is decided on grids only.",
+    design_ref="4/C16",
+)
+CHECKS["C05"] = dict(
+    engine="mirsym",
+    technique="SMT (z3/cvc5) over a symbolic execution of the real MIR of network::parse_protocol_message with the postcard decoder replaced by an arbitrary decode result and a symbolic clock",
+    category="proof",
+    text="PARTIAL claim (second sentence of the property only): for every decode outcome the frame is surfaced iff it decodes and its timestamp lies in [now-300, now+30]; the surfaced source is always the connection identity, never the payload's claim; topic and payload are the decoded fields. Counterexamples are replayed natively (real postcard bytes, pinned clock).",
+    note="The decoder-robustness half (every byte string up to 128 KiB returns normally, allocation bounds, 64 KiB / count / 512-byte caps in async handlers) is NOT claimed: postcard decoding and the async dispatchers are outside solver reach. Trusts the summaries (postcard result arbitrary, strings abstract, tracing effect-free).",
+    design_ref="4/C05",
+)
+
 NA = {
     "C01": "monolithic async fn over tokio/QUIC transport with string-keyed hash sets and timeouts; no solver-reachable encoding of the real code",
     "C02": "pending: routing-table kernel check not built yet",
